@@ -472,7 +472,7 @@ func (g *gen) unknownStep(m *Message) {
 	// known field never lands in unknown: covered by C03 frame (unknownFields equality in vhAssertEq)
 	// nested placement
 	for _, f := range m.All {
-		if f.Kind != "message" || f.MsgName == "" {
+		if f.Kind != "message" || (f.MsgName == "" && f.Card != "map") {
 			continue
 		}
 		tn := f.MsgName
